@@ -312,6 +312,8 @@ class Model(CallsMixin, BuiltinsMixin):
             return v.deg
         if v.k in ('int', 'bool') or (v.k == 'float' and v.has_const()):
             return {}
+        if v.k == 'arr':
+            return {}          # arrays carry degree 0 unless marked
         return None
 
     def division(self, out, a, b, node, env):
@@ -344,6 +346,13 @@ class Model(CallsMixin, BuiltinsMixin):
             lb = lower_bound(b.p, self.I.opts.get('lower_bounds'))
             if lb is not None and lb > 0:
                 return True, 'size-positive %r' % (b.p,)
+        if b.k == 'arr' and b.lo is not None and b.lo > 0:
+            return True, 'entries >= %s' % b.lo
+        if b.k == 'arr' and b.items is not None and b.items:
+            lbs = [lower_bound(x.p, self.I.opts.get('lower_bounds'))
+                   if x.p is not None else None for x in b.items]
+            if all(l is not None and l > 0 for l in lbs):
+                return True, 'size-positive entries'
         if b.k == 'float' and b.p is not None:
             lb = lower_bound(b.p, self.I.opts.get('lower_bounds'))
             if lb is not None and lb > 0:
@@ -386,6 +395,7 @@ class Model(CallsMixin, BuiltinsMixin):
                     return r
         dims = self.broadcast(da, db, node)
         out = ARR(dims, promote(a, b, sym))
+        out.lo = self._lo_binop(sym, a, b)
         if sym in ('&', '|', '^') and a.dt == 'b':
             out.dt = 'b'
         out.taint = a.taint | b.taint
@@ -402,6 +412,35 @@ class Model(CallsMixin, BuiltinsMixin):
             out.normed = True
             out.nonneg = a.nonneg
         return out
+
+    def lo_of(self, v):
+        """Lower bound of all entries of an int array / int scalar."""
+        if v.k == 'arr':
+            if v.lo is not None:
+                return v.lo
+            if v.items:
+                lbs = [lower_bound(x.p, self.I.opts.get('lower_bounds'))
+                       if x.p is not None else None for x in v.items]
+                if all(l is not None for l in lbs):
+                    return min(lbs)
+            return None
+        if v.k in ('int', 'bool') and v.p is not None:
+            return lower_bound(v.p, self.I.opts.get('lower_bounds'))
+        if v.has_const() and isinstance(v.c, (int, float)):
+            return Fraction(v.c).limit_denominator(10**9)
+        return None
+
+    def _lo_binop(self, sym, a, b):
+        la, lb = self.lo_of(a), self.lo_of(b)
+        if sym == '+' and la is not None and lb is not None:
+            return la + lb
+        if sym == '-' and la is not None and b.has_const() and \
+                isinstance(b.c, (int, float)):
+            return la - Fraction(b.c).limit_denominator(10**9)
+        if sym == '*' and la is not None and lb is not None and la >= 0 \
+                and lb >= 0:
+            return la * lb
+        return None
 
     def matmul(self, a, b, node):
         if a.k != 'arr' or b.k != 'arr' or a.dims is None or b.dims is None:
@@ -767,6 +806,7 @@ class Model(CallsMixin, BuiltinsMixin):
             s = self.I.scalar_of(base)
             return s
         r = ARR(tuple(out), base.dt)
+        r.lo = base.lo if base.lo is not None else self.lo_of(base)
         r.taint = base.taint
         r.lg = base.lg
         r.unit = base.unit
